@@ -23,6 +23,9 @@ class BVal:
         for p in self.parts:
             if p[0] == "enc":
                 tot = tot + L
+            elif p[0] == "encx":
+                # the same text under ANOTHER codec has another length (utf-8: 1-3 bytes per cp1252 character)
+                tot = tot + Poly.atom("L_" + p[1])
             elif p[0] == "const":
                 tot = tot + len(p[1])
             elif p[0] == "fixed":
@@ -146,6 +149,10 @@ class WriteAnalysis:
             return BVal([("const", n.value)])
         if isinstance(n, ast.Call) and isinstance(n.func, ast.Attribute) and n.func.attr == "encode":
             if isinstance(n.func.value, ast.Name) and n.func.value.id == self.data_p:
+                enc = n.args[0] if n.args else next((k.value for k in n.keywords if k.arg == "encoding"), None)
+                cod = (codec_of(enc) if enc is not None else "utf-8") or "unknown"
+                if cod != "cp1252":
+                    return BVal([("encx", cod.replace("-", "_"))])
                 return BVal([("enc", n)])
             return BVal([("other", norm(n))])
         if isinstance(n, ast.BinOp) and isinstance(n.op, ast.Add):
